@@ -298,9 +298,24 @@ def getGroups (md : MD) : Except Panic (List Str) := do
   | some c => return splitOn c gv
   | none => return [gv]
 
-/-- the ROC administrator group: the constant unless the environment variable of the same name
-    overrides it. -/
-def rocAdmin (rocEnv : Str) : Str := if rocEnv = [] then Generated.aetherROCAdmin.toList else rocEnv
+/-- the ROC administrator group name: the default unless the environment variable overrides it.
+    `rocEnv = none` — the variable is not defined; `some v` — it is defined with value `v` (possibly
+    empty).  When the override applies is read from the source (`Generated.listRocOverride`):
+    only for a non-empty value (`os.Getenv … != ""`), or whenever the variable is defined
+    (`os.LookupEnv`).  An override construct the translator does not know yields the empty name
+    (the worst case: it equals the empty entry `strings.Split` produces for a caller without groups). -/
+def rocAdmin (rocEnv : Option Str) : Str :=
+  match Generated.listRocOverride with
+  | "none" => Generated.listRocDefault.toList
+  | "getenvNonEmpty" =>
+    match rocEnv with
+    | some v => if v = [] then Generated.listRocDefault.toList else v
+    | none => Generated.listRocDefault.toList
+  | "lookupPresent" =>
+    match rocEnv with
+    | some v => v
+    | none => Generated.listRocDefault.toList
+  | _ => []
 
 /-- is this entity listed for a caller with these groups (authorization on)? -/
 def listed (roc : Str) (groups : List Str) (id : Str) : Bool :=
@@ -310,7 +325,7 @@ def listed (roc : Str) (groups : List Str) (id : Str) : Bool :=
 
 /-- `reportAllTargets`: the ids of the configurable entities, in topology order, filtered when
     `OIDC_SERVER_URL` is set. -/
-def reportAllTargets (oidc rocEnv : Str) (groups : List Str) (entities : List Str) : List Str :=
+def reportAllTargets (oidc : Str) (rocEnv : Option Str) (groups : List Str) (entities : List Str) : List Str :=
   if Generated.listGuardEnv == Generated.oidcServerURLEnv && oidc ≠ [] then
     entities.filter (listed (rocAdmin rocEnv) groups)
   else if Generated.listElseAppends then entities else []
